@@ -222,5 +222,5 @@ func gen(r *rand.Rand, tier string, n int) []any {
 }
 
 func main() {
-	common.Main(common.Prop{ID: "C20", Facts: facts, Gen: gen, Run: run, QuickN: 250, ThoroughN: 5000})
+	common.Main(common.Prop{ID: "C20", Facts: facts, Gen: gen, Run: run, QuickN: 250, ThoroughN: 2500})
 }
